@@ -1485,6 +1485,8 @@ class Pregex():
             elif _re.fullmatch(r"\\b", pattern,
                 flags=__class__.__flags | _re.IGNORECASE) is not None:
                 return _Type.Assertion, True
+            elif _re.fullmatch(r"\^|\$|\\A|\\Z", pattern) is not None:
+                return _Type.Assertion, False
             else:
                 return _Type.Token, True
 
